@@ -194,6 +194,18 @@ class Ctx:
         vals.setdefault(name, set()).add(v)
     nf.GLOBAL_CONSTS.clear()
     nf.GLOBAL_CONSTS.update((k, next(iter(v))) for k, v in vals.items() if len(v) == 1)
+    # literal containers bound once at module level (scenario membership tests)
+    from . import scenario
+    boxes = {}
+    for mi in self.P.modules.values():
+      for name, vals_ in mi.assigns.items():
+        if len(vals_) == 1 and name.replace('_', '').isupper() and isinstance(vals_[0], (ast.Dict, ast.Set, ast.Tuple, ast.List)):
+          try:
+            boxes.setdefault(name, []).append(ast.literal_eval(vals_[0]))
+          except (ValueError, SyntaxError):
+            pass
+    scenario.CONTAINERS.clear()
+    scenario.CONTAINERS.update((k, v[0]) for k, v in boxes.items() if len(v) == 1)
 
   def _reflective_scan(self):
     bad = []
